@@ -73,6 +73,87 @@ theorem escape_eq_nil {t : Bytes} : escape t = [] ↔ t = [] := by
       all_goals simp at this
   · intro h; subst h; rfl
 
+/-! ### `xml/ser.rs::text`: `escape`, then CR as `&#13;` -/
+
+theorem replaceCr_append : ∀ (a b : Bytes), replaceCr (a ++ b) = replaceCr a ++ replaceCr b
+  | [], _ => rfl
+  | c :: cs, b => by simp [replaceCr, replaceCr_append cs b]
+
+/-- what one byte becomes in a text event -/
+def escapeTextByte (c : UInt8) : Bytes := replaceCr (escapeByte c)
+
+theorem escapeText_cons (c : UInt8) (cs : Bytes) : escapeText (c :: cs) = escapeTextByte c ++ escapeText cs := by
+  simp [escapeText, escape, replaceCr_append, escapeTextByte]
+
+theorem escapeText_nil : escapeText [] = [] := rfl
+
+theorem escapeTextByte_special {c : UInt8} (h : isSpecial c = true) : escapeTextByte c = escapeByte c := by
+  simp only [isSpecial, Bool.or_eq_true, decide_eq_true_eq] at h
+  rcases h with (((h | h) | h) | h) | h <;> subst h <;> decide
+
+theorem escapeTextByte_cr : escapeTextByte 13 = [38, 35, 49, 51, 59] := by decide
+
+theorem escapeTextByte_plain {c : UInt8} (h : isSpecial c = false) (hcr : c ≠ 13) : escapeTextByte c = [c] := by
+  simp [escapeTextByte, escapeByte_of_not_special h, replaceCr, hcr]
+
+theorem unescape_cr (r : Bytes) : unescape ([38, 35, 49, 51, 59] ++ r) = (unescape r).map (13 :: ·) := by
+  have h13 : charRef [49, 51] = some [13] := by decide
+  simp [unescape, unescapeEnt, resolveEntity, cAmp, cSemi, h13]
+
+/-- `unescape (escapeText t) = t`: what the serialiser writes as text is read back unchanged -/
+theorem unescape_escapeText (t : Bytes) : unescape (escapeText t) = some t := by
+  induction t with
+  | nil => simp [escapeText_nil, unescape]
+  | cons c cs ih =>
+    rw [escapeText_cons]
+    by_cases hcr : c = 13
+    · subst hcr
+      rw [escapeTextByte_cr, unescape_cr, ih]; rfl
+    · cases hs : isSpecial c with
+      | false =>
+        rw [escapeTextByte_plain hs hcr]
+        have hamp : c ≠ cAmp := by
+          intro h; subst h; simp [isSpecial] at hs
+        rw [List.singleton_append, unescape_cons_of_ne_amp hamp, ih]; rfl
+      | true =>
+        rw [escapeTextByte_special hs]
+        simp only [isSpecial, Bool.or_eq_true, decide_eq_true_eq] at hs
+        rcases hs with (((h | h) | h) | h) | h <;> subst h
+        · simp only [escapeByte, if_true]; rw [unescape_lt, ih]; rfl
+        · rw [show escapeByte cGt = [38, 103, 116, 59] by decide, unescape_gt, ih]; rfl
+        · rw [show escapeByte cAmp = [38, 97, 109, 112, 59] by decide, unescape_amp, ih]; rfl
+        · rw [show escapeByte cApos = [38, 97, 112, 111, 115, 59] by decide, unescape_apos, ih]; rfl
+        · rw [show escapeByte cQuot = [38, 113, 117, 111, 116, 59] by decide, unescape_quot, ih]; rfl
+
+theorem escapeText_eq_self {t : Bytes} (h : ∀ c ∈ t, isSpecial c = false ∧ c ≠ 13) : escapeText t = t := by
+  induction t with
+  | nil => rfl
+  | cons c cs ih =>
+    rw [escapeText_cons, escapeTextByte_plain (h c (by simp)).1 (h c (by simp)).2,
+      ih (fun c hc => h c (by simp [hc]))]
+    rfl
+
+theorem escapeTextByte_ne_nil (c : UInt8) : escapeTextByte c ≠ [] := by
+  by_cases hcr : c = 13
+  · subst hcr; decide
+  · cases hs : isSpecial c with
+    | false => simp [escapeTextByte_plain hs hcr]
+    | true =>
+      rw [escapeTextByte_special hs]
+      unfold escapeByte
+      repeat' split
+      all_goals simp
+
+theorem escapeText_eq_nil {t : Bytes} : escapeText t = [] ↔ t = [] := by
+  constructor
+  · intro h
+    cases t with
+    | nil => rfl
+    | cons c cs =>
+      rw [escapeText_cons] at h
+      exact absurd (List.append_eq_nil_iff.mp h).1 (escapeTextByte_ne_nil c)
+  · intro h; subst h; rfl
+
 /-! ### integers -/
 
 theorem isDigit_not_special {c : UInt8} (h : isDigit c = true) : isSpecial c = false := by
@@ -82,6 +163,20 @@ theorem isDigit_not_special {c : UInt8} (h : isDigit c = true) : isSpecial c = f
 
 theorem escape_fmtDec (n : Nat) : escape (fmtDec n) = fmtDec n :=
   escape_eq_self fun c hc => isDigit_not_special (fmtDec_all_digits n c hc)
+
+theorem isDigit_ne_cr {c : UInt8} (h : isDigit c = true) : c ≠ 13 := by
+  intro hc; subst hc; simp [isDigit] at h
+
+theorem escapeText_fmtDec (n : Nat) : escapeText (fmtDec n) = fmtDec n :=
+  escapeText_eq_self fun c hc =>
+    ⟨isDigit_not_special (fmtDec_all_digits n c hc), isDigit_ne_cr (fmtDec_all_digits n c hc)⟩
+
+theorem escapeText_fmtInt (i : Int) : escapeText (fmtInt i) = fmtInt i := by
+  unfold fmtInt
+  split
+  · rw [escapeText_cons, escapeText_fmtDec]
+    decide
+  · exact escapeText_fmtDec _
 
 theorem escape_fmtInt (i : Int) : escape (fmtInt i) = fmtInt i := by
   unfold fmtInt
@@ -135,6 +230,9 @@ theorem parseBool_fmtBool (b : Bool) : parseBool (fmtBool b) = some b := by
 
 theorem escape_fmtBool (b : Bool) : escape (fmtBool b) = fmtBool b := by
   cases b <;> simp [fmtBool, escape, escapeByte, cLt, cGt, cAmp, cApos, cQuot]
+
+theorem escapeText_fmtBool (b : Bool) : escapeText (fmtBool b) = fmtBool b := by
+  cases b <;> decide
 
 theorem fmtBool_ne_nil (b : Bool) : fmtBool b ≠ [] := by cases b <;> simp [fmtBool]
 
